@@ -405,6 +405,14 @@ impl Parser {
                 return self.decl_err(cur, RULE);
             }
             // [60] DefaultDecl
+            if !matches!(cur.peek(), Some(b'#')) || cur.starts_with("#FIXED") {
+                // A defaulted attribute with a prefix takes part in namespace
+                // processing of every element it is defaulted on; we do not
+                // model defaulting, so flag the document instead.
+                if an.contains(':') && !an.starts_with("xml:") && !an.starts_with("xmlns:") {
+                    self.ns.violate("attlist-prefixed-default");
+                }
+            }
             match cur.peek() {
                 Some(b'#') => {
                     if cur.eat("#REQUIRED") || cur.eat("#IMPLIED") {
